@@ -76,6 +76,7 @@ COMPOSITES = [
     ["fixedvector", ["uint16"], 2],
     ["map", ["uint8"], ["bool"]],
     ["map", ["string", ["a", "b", "€"]], ["int8"]],
+    ["map", ["time"], ["bool"]], ["map", ["datetime"], ["int8"]], ["map", ["date"], ["bool"]],
     ["enum", ["int32"], [0, 1, 5]],
     ["enum", ["uint8"], [0, 2]],
     ["record", [["int16"], ["optional", ["uint8"]]]],
@@ -128,8 +129,9 @@ def c01_py_kernels(prop="C01", tier="quick", seed=0, **kw):
     N = 16
     for t in SCALARS + COMPOSITES:
         jobs.append(_job("h_ser_write", "ser.write:%s" % tname(t), b, t=t, N=N, maxlen=maxlen))
-        if t[0] in ("time", "datetime"):
-            continue   # read side builds numpy datetime64/timedelta64 from the decoded int: not symbolic (see limitations)
+        if t[0] in ("time", "datetime") or (t[0] == "map" and t[1][0] in ("time", "datetime")):
+            continue   # read side builds numpy datetime64/timedelta64 from the decoded int: not symbolic (see limitations);
+            #            dictionaries keyed by the runtime Time/DateTime classes are built by the write job and by c02_py_converters
         narrow = ("int8", "uint8", "int16", "uint16", "bool") if quick else ("int8", "uint8", "int16", "uint16", "int32", "uint32", "bool", "f32", "f64",
                                                                                "c32", "c64", "string", "date", "optional", "union", "enum", "fixedvector", "record")
         for m in (modes if t[0] in narrow else ["full"]):
@@ -314,7 +316,7 @@ CONV_TYPES = [[k] for k in ("int8", "uint8", "int16", "uint16", "int32", "uint32
     ["optional", ["int32"]], ["optional", ["string", ["", "x"]]], ["optional", ["bool"]],
     ["vector", ["int16"]], ["vector", ["optional", ["bool"]]], ["fixedvector", ["uint8"], 2],
     ["map", ["string", ["a", "b"]], ["int8"]], ["map", ["uint8"], ["bool"]], ["map", ["int16"], ["optional", ["uint8"]]],
-    ["map", ["date"], ["int8"]], ["map", ["datetime"], ["int8"]],      # (time keys: yardl_types.Time is unhashable, see h_json_kinds)
+    ["map", ["date"], ["int8"]], ["map", ["time"], ["bool"]], ["map", ["datetime"], ["int8"]],
     ["enum", ["int32"], [0, 1, 5]], ["enum", ["int32"], [3]], ["flags", [1, 2, 4]], ["flags", [0, 1, 8]],
     ["union", [["int32"], ["bool"]], True], ["union", [None, ["int32"], ["string", ["", "s"]]], True], ["union", [["int32"], ["float64"]], False],
     ["union", [None, ["bool"], ["vector", ["uint8"]]], False], ["union", [["string", ["a"]], ["vector", ["bool"]], ["uint8"]], True],
